@@ -25,3 +25,13 @@ def c01_eval_scalar(v, spec):
     return (v['kind'] == 'in-domain-raise:eval:AttributeError' and
             v.get('meta', {}).get('scalar_operand') is True and
             '_ncattrs' in v.get('excmsg', ''))
+
+
+@pred('C03-integer-truncation')
+def c03_int_trunc(v, spec):
+    # applyAlongDimensions stores the function's result in a variable of the
+    # INPUT dtype: a fractional result (mean/std/var, fractional convolution
+    # weights) of an integer variable is truncated toward zero.  The monitor
+    # only emits this kind when the stored values equal trunc(reference) and
+    # the masks agree, so any other wrong value is still reported.
+    return v['kind'] == 'integer-truncation'
